@@ -5,13 +5,13 @@ import json, os
 # id -> (technique, level text, design ref)   -- only properties whose rules are built and armed
 CLAIMED = {
  "C19": ("call-graph rule for recovery coverage, value flow of the limiter layering, threshold rules by edge-feasibility and per-iteration path counts, must-pass-through for restoring the limit",
-         "Structural bounds on hostile input decided on every path: recovery above every callback, limiter below textproto on every init, exact counting/threshold of lineLimitReader, restoration after BDAT, 500+return on too-long lines, error threshold of protocolError. Panic-freedom of the standard library is trusted; the compiler's bounds-check list is cross-reference only.",
+         "Structural bounds on hostile input decided on every path: recovery above every callback, limiter below textproto on every init, exact counting/threshold of lineLimitReader (every LF resets, independent of read boundaries), restoration after BDAT, 500+return on too-long lines, no line handed out while the limiter refuses, constant indexes within guarded lengths, regexp alternatives matching the callback's length assumptions, monotone error count and threshold of protocolError. Panic-freedom of the standard library is trusted; the compiler's bounds-check list is cross-reference only.",
          "DESIGN.md §3 C19"),
  "C20": ("thread roles x locksets over all field accesses (must-lockset dataflow with interprocedural entry locksets, frozen happens-before edges), lock-order graph, capture rule, path rules for Serve/Close/Shutdown",
          "Every (field, role, access, lockset) tuple of Conn/Server classified; unordered conflicting pairs are individual obligations (existing ones are listed known findings, new ones fail). Reports possible races; does not prove races occur nor deadlock freedom in general.",
          "DESIGN.md §3 C20"),
  "C14": ("interval-class abstract interpretation of the three encoders and of the UTF-8 decoder callback; regexp literals parsed from source constants; table agreement (pass-through set vs decoder specials/separators, escape width vs decoder acceptance); field/key pairing",
-         "Character-class level agreement of encoders and decoders decided exhaustively over all scalar values (both sides only compare with constants), plus client/server pairing of option fields and keys. Equality of whole option structs, mailbox syntax and time-zone rendering are NOT decided.",
+         "Character-class level agreement of encoders and decoders decided exhaustively over all scalar values (both sides only compare with constants), plus client/server pairing of option fields and keys. The RRVS layout must keep date, time to the second and a numeric zone; the null AUTH identity pairing, the verbatim rendering of the command line and pointer freshness of option fields are decided. Equality of whole option structs and mailbox syntax are NOT decided.",
          "DESIGN.md §3 C14"),
  "C15": ("whitelist taint over the resolved program (leaf sources through phis/cells, sanitiser table), edge-feasibility for extension gates and validate-first, path counting of commands",
          "No unsanitised dynamic string can reach a client command line; validation failures and missing REQUIRETLS/SMTPUTF8 reach no write; one command per step; every parameter token gated by the matching EHLO keyword. The SASL mechanism name and non-CR/LF octets are outside.",
@@ -26,7 +26,7 @@ CLAIMED = {
          "Structural conditions for correct per-transaction attribution in the LMTP client decided on every path.",
          "DESIGN.md §3 C18"),
  "C11": ("switch exhaustiveness, per-case value flow of option fields, edge-feasibility of decoder/parser failure edges, whitelist comparison rules",
-         "Parameter dispatch, flow and error discipline of the MAIL/RCPT handlers decided for every case and failure edge. Which strings the hand-written path/mailbox parser accepts versus the RFC 5321 grammar is a whole-language question and is NOT decided.",
+         "Parameter dispatch, flow and error discipline of the MAIL/RCPT handlers decided for every case and failure edge. The refusing side is decided as a list of necessary conditions (R-grammar-guards): for each malformed shape this parser distinguishes, its accepting exit is unreachable; stop sets of the scanning loops, the utf-8-addr-xtext acceptance table (exact, against RFC 6533 HEXPOINT) and keyword/verb case folding are checked. That the accepted language equals RFC 5321's is NOT decided.",
          "DESIGN.md §3 C11"),
  "C12": ("capability table extracted from SSA guard facts and compared with the reference table by exhaustive truth table; 504-gate table agreement",
          "The configuration space is finite and consulted only through boolean tests, so the extracted table is the behaviour; compared on every assignment of the configuration atoms. Parameter gates agree with the flags. Capability line syntax beyond the constants and backend mechanism lists are not decided.",
@@ -53,10 +53,10 @@ CLAIMED = {
          "End-of-data detection decided by the table for all streams; resynchronisation decided on every path: drain after each callback, limit lifted before the drain, goroutine joined after its drain, no line read during data, one reader per DATA.",
          "DESIGN.md §3 C02"),
  "C05": ("value flow of the chunk framing + path counting of consume events + edge-feasibility guards",
-         "Structural necessary conditions of BDAT framing on every path: chunk = LimitReader(c.text.R, parsed size), raw payload path, every sized path consumes the chunk (also refusals), one goroutine per message, accounting. The read-ahead/line-limit clause is not decided.",
+         "Structural necessary conditions of BDAT framing on every path: chunk = LimitReader(c.text.R, parsed size), raw payload path, every sized path consumes the chunk (also refusals), one goroutine per message, accounting. Failed discards end the connection on every path. The read-ahead/line-limit clause is decided structurally and fails on this tree: recorded as a known finding (limiter below the buffered reader).",
          "DESIGN.md §3 C05"),
  "C06": ("guards with exact thresholds by edge-feasibility under both polarities + must-summaries + value flow in Read",
-         "Limit armed at construction, lifted only after the callback; budget cut/decrement/exhaustion in Read; SIZE and BDAT totals refused exactly when strictly greater than the limit with 552 and no callback. The DATA boundary at exactly N octets is NOT decided.",
+         "Limit armed at construction, lifted only after the callback; budget cut/decrement/exhaustion in Read; SIZE and BDAT totals refused exactly when strictly greater than the limit with 552 and no callback. The DATA boundary at exactly N octets is decided by the budget rules (exhausted budget vs the octet beyond it); the handlers add no size verdict of their own (verdict-source rule); the reader's framing rules are shared so that an over-limit message still ends at its marker.",
          "DESIGN.md §3 C06"),
  "C07": ("automaton table for error/EOF results + guard facts with phi refinement for the clean pipe close + must-summaries for aborts",
          "io.EOF only in the end state; read errors become non-EOF errors; clean pipe close only on LAST after a complete chunk (error nil and count == declared size); reset/Close abort an open pipe; handleConn closes on every exit.",
